@@ -9,15 +9,15 @@ CONSTANTS
   d1 = "d1"
   l1 = "l1"
   l2 = "l2"
-  Call = {"c1", "c2", "d1"}
-  LCall = {"l1", "l2"}
+  Call = {"a1", "a2", "b1"}
+  LCall = {}
   CallDef <- MCCallDef
   LDef <- MCLDef
   PeerOrder <- MCPeerOrder
   None = "None"
-  MaxSeq = 2
+  MaxSeq = 1
   MaxStim <- MCMaxStim
-  Cats = {"conn", "flow", "odd", "gate"}
+  Cats = {"conn", "flow", "flow2", "odd"}
   MaxOdd = 2
   BugPtr = FALSE
   BugWait = FALSE
